@@ -727,6 +727,18 @@ func (g *gen) coBody(fc *fctx) (string, *fnSig, []Stmt) {
 				args = append(args, Var{stn})
 			}
 			out = append(out, &Call{Fn: Var{"emit"}, Args: args})
+			// resuming oneself (running) or an enclosing coroutine (normal) is refused and changes nothing
+			for i, sv := range append([]*varInfo{{name: me}}, selfs...) {
+				if i >= 2 || g.ch(2) == 0 {
+					continue
+				}
+				// whether the refusal comes back as (false, msg) or as a raised error depends on how the target was
+				// created (gopher-lua raises for wrap coroutines); only "it was refused" is observed
+				okn, en := g.fresh("ok"), g.fresh("re")
+				out = append(out, &Call{Names: []string{okn, en}, Fn: Var{"pcall"}, Args: []Expr{Var{"coresume"}, Var{sv.name}, Num{1}}},
+					&Call{Fn: Var{"emit"}, Args: []Expr{Str{"refuse"}, Bin{"and", Var{okn}, Var{en}}}})
+				g.use("resume_running_or_normal")
+			}
 		}
 		return out
 	}
